@@ -692,8 +692,10 @@ Definition last_is_end (ops : list opcode) : bool :=
 
 (* Program::link *)
 Definition program_link (p : program) : program :=
+  (* a closing END statement serves as the final END unless a line or label sits behind it *)
+  let at_end := existsb (fun e => fst (snd e) =? lenN (l_ops (pg_link p))) (l_syms (pg_link p)) in
   let p1 :=
-    if last_is_end (l_ops (pg_link p)) then p
+    if last_is_end (l_ops (pg_link p)) && negb at_end then p
     else match l_push OpEnd (pg_link p) with
          | (l', Ok _) => with_link p l'
          | (l', Err e) => prog_raw_error (with_link p l') e
